@@ -5,7 +5,7 @@
    field being computed still holds its zero placeholder, which is the "checksum field zero" convention.
    Only statements; proofs in theories/ComputeSpec.v. *)
 From Coq Require Import ZArith List Bool.
-From MS Require Import PyBase Bits Schc Crc32cTable Compute RfcChecksum ComputeSpec.
+From MS Require Import PyBase Buffer Bits BufferAbs Schc Crc32cTable Compute RfcChecksum ComputeSpec PySort SchcSpec SchcCodec ComputeBytes ComputeRefine UdpSctpOrder.
 Import ListNotations.
 Open Scope Z_scope.
 
@@ -66,6 +66,38 @@ Proof. exact (c09_sctp_checksum fs pos). Qed.
 Example c09_ex_crc : crc32c_value [49; 50; 51; 52; 53; 54; 55; 56; 57] = 3808858755.
 Proof. exact crc32c_check_value. Qed.
 
+(* the compute functions as the code writes them on Buffers (ComputeBytes.v: reduce with +, chunks, value, to_bytes) refine the
+   bit-level ones above, function by function and as a table (same keys, same dependency sets): same value or same exception *)
+Theorem c09_bytes_table : table_refines bcompute_functions compute_functions.
+Proof. exact bcompute_functions_refines. Qed.
+Theorem c09_bytes_udp_checksum : fn_refines budp_checksum udp_checksum.
+Proof. exact budp_checksum_refines. Qed.
+Theorem c09_bytes_ipv4_checksum : fn_refines bipv4_checksum ipv4_checksum.
+Proof. exact bipv4_checksum_refines. Qed.
+Theorem c09_bytes_sctp_checksum : fn_refines bsctp_checksum sctp_checksum.
+Proof. exact bsctp_checksum_refines. Qed.
+(* the order in which the functions run is the order Python's list.sort gives the entries (PySort.v: count_run + binary insertion,
+   validated against CPython on 99 entry lists in SortExamples.v).  A checksum that covers another computed checksum runs after it:
+   for a rule in packet order computing the UDP length, the UDP checksum and the checksum of an SCTP packet carried in the datagram,
+   the SCTP checksum is regenerated BEFORE the UDP checksum (what the fix of udp.py restores) *)
+Theorem c09_udp_after_sctp pre mid post ulen uck sck :
+  no_compute pre = true -> no_compute mid = true -> no_compute post = true ->
+  r_cda ulen = Compute -> r_id ulen = UDP_LENGTH ->
+  r_cda uck = Compute -> r_id uck = UDP_CHECKSUM ->
+  r_cda sck = Compute -> r_id sck = SCTP_CHECKSUM ->
+  let p := zlen pre in
+  let q := p + 2 + zlen mid in
+  py_sort_ces (centries_of compute_functions 0 (pre ++ [ulen; uck] ++ mid ++ [sck] ++ post)) =
+  Some [mkcentry p UDP_LENGTH udp_length [];
+        mkcentry q SCTP_CHECKSUM sctp_checksum SCTP_ALL_BUT_CHECKSUM;
+        mkcentry (p + 1) UDP_CHECKSUM udp_checksum UDP_CHECKSUM_DEPS].
+Proof. exact (udp_sctp_rule_order pre mid post ulen uck sck). Qed.
+(* already sorted lists are left alone, the sort never fails below 64 entries and only permutes *)
+Theorem c09_sort_sorted ces : ce_sorted ces = true -> (length ces < 64)%nat -> py_sort_ces ces = Some ces.
+Proof. exact (py_sort_sorted ces). Qed.
+Theorem c09_sort_total ces : (length ces < 64)%nat -> exists out, py_sort_ces ces = Some out.
+Proof. exact (py_sort_ces_total ces). Qed.
+
 Print Assumptions c09_ipv6_len.
 Print Assumptions c09_udp_len.
 Print Assumptions c09_ipv4_len.
@@ -76,3 +108,10 @@ Print Assumptions c09_fold_padded.
 Print Assumptions c09_crc_table.
 Print Assumptions c09_crc.
 Print Assumptions c09_sctp_crc.
+Print Assumptions c09_bytes_table.
+Print Assumptions c09_bytes_udp_checksum.
+Print Assumptions c09_bytes_ipv4_checksum.
+Print Assumptions c09_bytes_sctp_checksum.
+Print Assumptions c09_udp_after_sctp.
+Print Assumptions c09_sort_sorted.
+Print Assumptions c09_sort_total.
